@@ -1391,6 +1391,28 @@ def _memo_in_closure(ctx, clo):
                 fn_name = dotted(inner.func) if isinstance(inner, ast.Call) else dotted(inner)
                 if wrapped and fn_name and fn_name.split(".")[-1] in MEMO:
                     bad = bad or (f"{mod.rel}:{st.lineno}", f"`{short(st, 50)}` wraps `{wrapped[0].id}` in a memo")
+    # a memo written by hand: a function of the closure (or a helper spliced into one) files results in a container
+    # that lives at module level and reads it back
+    for mod in {f.module for f in clo}:
+        if not hasattr(mod, "_raw_tree"):
+            mod._raw_tree = ast.parse(mod.src)
+        tables = set()
+        for st in mod._raw_tree.body:
+            if isinstance(st, ast.Assign) and (isinstance(st.value, (ast.Dict, ast.List, ast.Set)) or (isinstance(st.value, ast.Call) and call_name(st.value) in ("dict", "list", "set", "defaultdict", "collections.defaultdict", "OrderedDict", "WeakKeyDictionary", "weakref.WeakKeyDictionary", "WeakValueDictionary"))):
+                tables |= {t.id for t in st.targets if isinstance(t, ast.Name)}
+        if not tables:
+            continue
+        for st in mod._raw_tree.body:
+            if not (isinstance(st, ast.FunctionDef) and st.name in names):
+                continue
+            stores = [x for x in ast.walk(st) if (isinstance(x, ast.Subscript) and isinstance(x.ctx, ast.Store) and isinstance(x.value, ast.Name) and x.value.id in tables) or (isinstance(x, ast.Call) and isinstance(x.func, ast.Attribute) and x.func.attr in ("setdefault", "update", "append", "add") and isinstance(x.func.value, ast.Name) and x.func.value.id in tables)]
+            if not stores:
+                continue
+            tname = stores[0].value.id if isinstance(stores[0], ast.Subscript) else stores[0].func.value.id
+            local = {a.arg for a in ast.walk(st.args) if isinstance(a, ast.arg)} | {t.id for a in ast.walk(st) if isinstance(a, ast.Assign) for t in a.targets if isinstance(t, ast.Name)}
+            reads = [x for x in ast.walk(st) if isinstance(x, ast.Name) and x.id == tname and isinstance(x.ctx, ast.Load)]
+            if tname not in local and len(reads) > len(stores):
+                bad = bad or (f"{mod.rel}:{stores[0].lineno}", f"`{st.name}` keeps its results in the module-level `{tname}` and reads them back")
     return bad
 
 
